@@ -17,6 +17,7 @@ from vf.props import C08 as G     # input generators (alphabets, matrices, codes
 ID = "C09"
 FLAVOUR = "san"
 LEVEL = "exploration"
+THOROUGH_MULT = 2.5       # deepens the sampled strata of the thorough tier (measured: about ten minutes on 16 cores)
 RULE = (
     "seeded generator, inputs as C08 (alphabets 1-6 and 300/70 000 symbols, separate alphabets per sequence, int matrices "
     "uniform/negative/zero/symmetric/identity/tie-forcing/|1000|, linear and affine penalties).  banded: lengths 0-30, two "
